@@ -28,7 +28,8 @@ def http_axioms(eng, st):
     grp = z3.Select(st.H('oslo_policy'), V.ref(conf))
     g = lambda f: z3.Select(st.H(f), V.ref(grp))
     optstr = lambda v: z3.Or(v == NONE, V.is_str(v))
-    body = z3.And(V.is_obj(e), V.is_obj(conf), clsof(V.ref(conf)) == eng.cid('$Conf'),
+    body = z3.And(V.is_obj(e), z3.Or(eng.isinst(e, 'Enforcer'), eng.isinst(e, 'FakeEnforcer')),
+                  V.is_obj(conf), clsof(V.ref(conf)) == eng.cid('$Conf'),
                   V.is_obj(grp), clsof(V.ref(grp)) == eng.cid('$OsloPolicyGroup'),
                   z3.Or(V.is_float(g('remote_timeout')), V.is_int(g('remote_timeout'))),
                   V.is_str(g('remote_content_type')),
